@@ -46,6 +46,18 @@ def multi_fault(seed, count):
     return out
 
 
+def serial_variants():
+    """The configured serial number is only a prefix / suffix of the one the terminal reports, or empty: a different serial number."""
+    ok = {"o": "ok", "status": {"amount": [1]}, "uid": [1, 2, 3, 4]}
+    out = []
+    for serial in ("17FD", "", "17FD1E3", "7FD1E3C", "1E3C", "17FD1E3C0"):
+        for calls in ([{"op": "read_card"}, {"op": "begin", "token": [97], "amount": []}],
+                      [{"op": "configure"}, {"op": "read_card"}]):
+            out.append({"start": "disconnected", "calls": calls, "plan": {"exchanges": [], "handshake": [], "default": ok},
+                        "config": {"serial": serial}})
+    return out
+
+
 def run(chk):
     wd = vlib.workdir("C09")
     thorough = chk.tier == "thorough"
@@ -54,7 +66,7 @@ def run(chk):
     ppt, rcm = cl.calibrate(chk, binary)
     sc = cl.gen_scenarios(chk, "C09", thorough, ppt, rcm)
     walks = multi_fault(chk.seed, 5000 if thorough else 200)
-    out = cl.run_scenarios(binary, sc + walks, wd, "c09")
+    out = cl.run_scenarios(binary, sc + serial_variants() + walks, wd, "c09")
     outs, pfl = cl.validate_conn(chk, out, wd, "c09", shard=200, ppt=ppt, rcm=rcm)
     cl.report_conn(chk, outs, pfl, {"P09"}, WHAT)
     cl.validate_stream(chk, out, wd, "c09", ppt=ppt, rcm=rcm)
@@ -64,7 +76,8 @@ def run(chk):
     chk.cov["rule"] = ("TLC generates single-fault scenarios: {read_card, begin, commit, cancel, configure} x every exchange of the operation x every "
                        "frame position (acknowledgement included) x {close, garbage, malformed, partial frame, partial frame + close, NACK, silence}, "
                        "and on a fresh connection {connect refused, connect stall, foreign serial, each fault at each frame of registration and of the "
-                       "identity check}; each followed by a further read_card to observe reuse. Plus seeded multi-fault walks. The real client runs "
+                       "identity check; the client's own write failing once - of the command or of an acknowledgement}; terminals reporting a serial that "
+                       "differs in one character or is shorter, configurations whose serial is a proper prefix / suffix of the reported one or empty; each followed by a further read_card to observe reuse. Plus seeded multi-fault walks. The real client runs "
                        "against the simulated terminal on the paused clock; TLC runs the P_C09 acceptor over the per-connection log")
     chk.sample({"calls": [c["op"] for c in sc[len(sc) // 2]["calls"]], "plan": str(sc[len(sc) // 2]["plan"])[:400]})
     chk.assumptions += ["a connection also counts as having seen a failure when the client itself leaves an exchange unfinished on it (AbandonExchange, O2)",
